@@ -41,6 +41,8 @@ Definition group_at (names : list string) (ins : nat) (a : darr) : res darr :=
   let k := List.length names in
   let mems := firstn k (skipn ins (axes a)) in
   let! g := multi_axis mems in
+  (* the constructor (Axes.append) refuses a name that is already there *)
+  if mem_str (aname g) (map aname (firstn ins (axes a) ++ skipn (ins + k) (axes a))) then Err ValueError else
   let newaxes := firstn ins (axes a) ++ [g] ++ skipn (ins + k) (axes a) in
   Ok (mkarr newaxes (np_reshape (map alen newaxes) (vals a)) (attrs a)).
 
@@ -80,9 +82,11 @@ Fixpoint unflatten_axes (axs : list axis) : list axis :=
                | ms => map of_maxis ms ++ unflatten_axes t
                end
   end.
-Definition unflatten (a : darr) : darr :=
+Definition unflatten (a : darr) : res darr :=
   let newaxes := unflatten_axes (axes a) in
-  mkarr newaxes (np_reshape (map alen newaxes) (vals a)) (attrs a).
+  (* the constructor (Axes.append) refuses a member name that another dimension already has *)
+  if negb (nodupb String.eqb (map aname newaxes)) then Err ValueError else
+  Ok (mkarr newaxes (np_reshape (map alen newaxes) (vals a)) (attrs a)).
 
 (* reshape(newdims) where a name may be a comma-joined group *)
 Fixpoint split_commas_aux (s : string) (cur : string) : list string :=
@@ -104,7 +108,7 @@ Definition reshape (newdims : list string) (a : darr) : res darr :=
   if list_eqb String.eqb newdims (dims a) then Ok a
   else if negb (nodupb String.eqb newdims) then Err AssertionError
   else
-    let o := unflatten a in
+    let! o := unflatten a in
     let flat := flat_map split_commas newdims in
     if negb (nodupb String.eqb flat) then Err AssertionError else
     let! o := squeeze_absent (dims o) flat o in
